@@ -11,6 +11,7 @@ A run is a pure function of (flags, peers, schedule, fault plans): single thread
 import os
 import time
 import errno
+import ipaddress
 import queue
 import socket
 import struct
@@ -132,6 +133,18 @@ FATAL = {'ECONNRESET': errno.ECONNRESET, 'EPIPE': errno.EPIPE, 'ETIMEDOUT': errn
          'ENOTCONN': errno.ENOTCONN}
 
 
+def fake_peername(addr: Any, family: Any = None) -> Tuple[Any, ...]:
+    """(ip, port[, flowinfo, scope]) a connected TCP socket would report: literals as they are, names 'resolved' to a
+    deterministic documentation-range address."""
+    host, port = str(addr[0]).strip('[]'), int(addr[1])
+    try:
+        ip = ipaddress.ip_address(host)
+        return (host, port) if ip.version == 4 else (host, port, 0, 0)
+    except ValueError:
+        n = sum(host.encode('utf-8', 'replace')) % 250 + 1
+        return ('198.51.100.%d' % n, port)
+
+
 class KStats:
     """What the harness remembers about one proxy-side socket (the socket object itself is only weakly referenced)."""
 
@@ -223,6 +236,11 @@ class KSock(socket.socket):
         k = self.n['send']
         self._fault('send')
         cap = self.caps[k % len(self.caps)] if self.caps else None
+        if cap == 0 and self.mode != 'nonblocking':
+            # a socket in blocking / timeout mode does not report would-block: send() waits until the kernel takes something.
+            # "The kernel takes nothing right now" therefore means "it took the minimum after a wait" (a really full buffer is
+            # still met below, and ends in the timeout the proxy asked for)
+            cap = 1
         if cap == 0:
             self.short += 1
             self._wouldblock()
@@ -268,6 +286,14 @@ class KSock(socket.socket):
         self.bytes_in += len(b)
         self.world.activity += 1
         return b
+
+    inet_peer: Optional[Tuple[Any, ...]] = None
+
+    def getpeername(self) -> Any:     # type: ignore[override]
+        # the pair is AF_UNIX; code under test that asks for the peer of an upstream connection gets an internet address
+        if self.inet_peer is not None:
+            return self.inet_peer
+        return super().getpeername()
 
     def shutdown(self, how: int) -> None:
         # shutdown() on a connection the peer has reset fails with ENOTCONN on a real stack: a faultable call like the others
@@ -318,6 +344,7 @@ class Peer:
         self.closed = False
         self.closed_iter: Optional[int] = None
         self.shut = False
+        self.shut_iter: Optional[int] = None
         self.world: Optional['World'] = None
         self.opened_iter: Optional[int] = None
         self.last_rx_iter: Optional[int] = None
@@ -386,6 +413,7 @@ class Peer:
     def do_shut(self) -> None:
         if not self.closed and not self.shut and self.sock is not None:
             self.shut = True
+            self.shut_iter = self.world.iter if self.world else None
             try:
                 self.sock.shutdown(socket.SHUT_WR)
             except OSError:
@@ -500,6 +528,39 @@ class StepQueue:
         return True
 
 
+class _SelectorFaults:
+    """Delegates to the executor's real selector; register()/modify() of a work's descriptor can be made to fail the way
+    selectors.EpollSelector fails when epoll_ctl does (the descriptor is dropped from the selector's map, OSError raised)."""
+
+    def __init__(self, real: Any, world: 'World') -> None:
+        self._real = real
+        self._world = world
+
+    def _fd(self, fileobj: Any) -> int:
+        return fileobj if isinstance(fileobj, int) else fileobj.fileno()
+
+    def register(self, fileobj: Any, events: int, data: Any = None) -> Any:
+        f = self._world.selector_fault_fn('register', self._fd(fileobj)) if self._world.selector_fault_fn else None
+        if f:
+            self._world.faults_fired.append(('selector', 'register', self._fd(fileobj), f))
+            raise OSError(getattr(errno, f), os.strerror(getattr(errno, f)))
+        return self._real.register(fileobj, events, data)
+
+    def modify(self, fileobj: Any, events: int, data: Any = None) -> Any:
+        f = self._world.selector_fault_fn('modify', self._fd(fileobj)) if self._world.selector_fault_fn else None
+        if f:
+            self._world.faults_fired.append(('selector', 'modify', self._fd(fileobj), f))
+            try:
+                self._real.unregister(fileobj)
+            except (KeyError, ValueError):
+                pass
+            raise OSError(getattr(errno, f), os.strerror(getattr(errno, f)))
+        return self._real.modify(fileobj, events, data)
+
+    def __getattr__(self, name: str) -> Any:
+        return getattr(self._real, name)
+
+
 class World:
     def __init__(self, flags: Any, *, tcp: bool = False, sndbuf: Optional[int] = None, max_iters: int = 20000,
                  settle: int = 8, weak_ksocks: bool = False) -> None:
@@ -517,6 +578,8 @@ class World:
         self.iter = 0
         self.activity = 0
         self.calls = 0
+        self.harness_hang: Optional[str] = None
+        self.hung_where: Optional[str] = None
         self.stalls: List[Dict[str, Any]] = []      # blocking-mode socket calls that met a really full / empty kernel buffer
         self.ksocks: List[KStats] = []
         self.peers: Dict[str, Peer] = collections.OrderedDict()
@@ -607,6 +670,7 @@ class World:
         a, b = self.pair()
         ks = KSock(a, self, 'upstream:%d' % idx, plan)
         ks.mode = 'timeout'       # new_socket_connection leaves the socket in 10 s timeout mode
+        ks.inet_peer = fake_peername(addr, family)      # what getpeername() of the real TCP socket would have returned
         self.peers[peer.name] = peer
         if peer.name not in self.order:
             self.order.append(peer.name)
@@ -619,8 +683,18 @@ class World:
             return self.global_fault_fn(ks, op)
         return None
 
+    # -- selector-level faults (epoll_ctl can fail: ENOMEM, ENOSPC when max_user_watches is exceeded)
+    selector_fault_fn: Optional[Callable[[str, int], Optional[str]]] = None
+
+    def _wrap_selector(self) -> None:
+        ex = self.executor
+        if self.selector_fault_fn is None or ex is None or getattr(ex, 'selector', None) is None or isinstance(ex.selector, _SelectorFaults):
+            return
+        ex.selector = _SelectorFaults(ex.selector, self)
+
     # -- the per-iteration hook
     def step(self) -> Any:
+        self._wrap_selector()
         self.iter += 1
         if self.on_iteration is not None:
             self.on_iteration(self)
@@ -715,6 +789,8 @@ class World:
         try:
             with _Watchdog(self):
                 ex.run()
+        except HarnessHang:
+            raise
         except BaseException as e:     # run() itself raising also means the worker is gone
             self.exceptions.insert(0, ('run', '%s: %s' % (type(e).__name__, e)))
             if isinstance(e, Hung):
@@ -790,6 +866,10 @@ def make_flags(argv: Optional[List[str]] = None, **opts: Any) -> Any:
 # threaded mode: the real HttpProtocolHandler.run() (own selector, blocking _flush() in shutdown())
 # executed in the harness thread; the handler's selector is replaced by a stepping wrapper.
 
+class HarnessHang(BaseException):
+    """The watchdog fired while the innermost frame was harness code: reported as a harness error (exit 2), not a verdict."""
+
+
 class Hung(BaseException):
     """Raised by the per-run watchdog: the loop under test sat in one blocking call for WALL_LIMIT seconds."""
 
@@ -814,6 +894,10 @@ class _Watchdog:
             self.last_iter = self.world.iter
             signal.setitimer(signal.ITIMER_REAL, WALL_LIMIT)
             return
+        if frame is not None and '/vf/' in frame.f_code.co_filename:
+            # the harness itself is spinning (a peer model, a reference): never the proxy's fault
+            self.world.harness_hang = '%s:%d' % (frame.f_code.co_filename, frame.f_lineno)
+            raise HarnessHang(self.world.harness_hang)
         where = '?'
         f = frame
         while f is not None:
@@ -822,6 +906,7 @@ class _Watchdog:
                 where = '%s:%d' % (fn.split('/proxy/', 1)[1], f.f_lineno)
                 break
             f = f.f_back
+        self.world.hung_where = where
         raise Hung(where)
 
     def __enter__(self) -> '_Watchdog':
@@ -838,6 +923,12 @@ class _Watchdog:
         if threading.current_thread() is threading.main_thread():
             signal.setitimer(signal.ITIMER_REAL, 0)
             signal.signal(signal.SIGALRM, self.old or signal.SIG_DFL)
+        # the exception raised by the timer may have been swallowed by the event loop's task machinery: what fired is
+        # remembered on the world
+        if getattr(self.world, 'harness_hang', None) and (not a or a[0] is not HarnessHang):
+            raise HarnessHang(self.world.harness_hang)
+        if getattr(self.world, 'hung_where', None) and not any(x[1].startswith('Hung') for x in self.world.exceptions):
+            self.world.exceptions.insert(0, ('run', 'Hung: %s' % self.world.hung_where))
 
 
 class StopRun(BaseException):
@@ -898,6 +989,8 @@ def _run_threaded(self: World, client_name: str) -> World:
         self.run_returned = True
     except StopRun:
         pass
+    except HarnessHang:
+        raise
     except Hung as e:
         self.exceptions.insert(0, ('run', 'Hung: %s' % (e,)))
     except BaseException as e:
@@ -1003,9 +1096,11 @@ def _run_remote(self: World) -> World:
     global CURRENT
     import asyncio
     import multiprocessing
-    from multiprocessing.reduction import send_handle
+    import threading
+    from proxy.core.work.delegate import delegate_work_to_pool
     from proxy.core.work.fd.remote import RemoteFdExecutor
     CURRENT = self
+    lock = threading.Lock()
     parent, child = multiprocessing.Pipe()
     world = self
     self.remote_sent: List[int] = []
@@ -1020,11 +1115,17 @@ def _run_remote(self: World) -> World:
                 return True
             if isinstance(r, tuple):
                 conn, addr = r
-                # what Acceptor._work does for a remote executor
-                parent.send(addr)
-                send_handle(parent, conn.fileno(), os.getpid())
+                # what Acceptor._work does for a remote executor: the real hand-over function, with the listener configuration
+                # of the flags (the framing on the pipe depends on --unix-socket-path at both ends)
                 world.remote_sent.append(conn.fileno())
-                socket.socket.close(conn)
+
+                class _Handle:
+                    def fileno(self) -> int:
+                        return conn.fileno()
+
+                    def close(self) -> None:
+                        socket.socket.close(conn)      # the acceptor's copy; not the proxy-side close the checks watch for
+                delegate_work_to_pool(os.getpid(), parent, lock, _Handle(), addr, world.flags.unix_socket_path)     # type: ignore[arg-type]
             return await super()._run_once()
 
     loop = asyncio.new_event_loop()
@@ -1037,6 +1138,8 @@ def _run_remote(self: World) -> World:
     try:
         with _Watchdog(self):
             ex.run()
+    except HarnessHang:
+        raise
     except BaseException as e:
         self.exceptions.insert(0, ('run', '%s: %s' % (type(e).__name__, e)))
         if isinstance(e, Hung):
